@@ -746,8 +746,74 @@ func checkSharedEntriesRefCounted(c *core.Ctx) {
 						return true
 					})
 					// either "if count > 1 { …; return }" before the delete, or the delete inside "if count == 0 {"
-					if cmp && (returns || (is.Body.Pos() <= call.Pos() && call.End() <= is.Body.End())) {
+					inside := is.Body.Pos() <= call.Pos() && call.End() <= is.Body.End()
+					if cmp && (returns || inside) {
 						guarded = true
+						// … and the threshold is the last user: evaluate the comparison for 1, 2 and 3 users before this release.
+						// The compared value is the count before the release, or after it when it was decremented first
+						// (`x--` in front, or a local bound to `count - 1`).
+						var be *ast.BinaryExpr
+						ast.Inspect(is.Cond, func(z ast.Node) bool {
+							if b, ok := z.(*ast.BinaryExpr); ok && be == nil {
+								if _, isK := core.ConstVal(info, b.Y); isK {
+									if t := info.Types[b.X].Type; t != nil && basicKind(t) == types.Int {
+										be = b
+									}
+								}
+							}
+							return true
+						})
+						if be != nil {
+							after := false
+							if ids, ok := is.Init.(*ast.IncDecStmt); ok && ids.Tok == token.DEC {
+								after = true
+							}
+							if as, ok := is.Init.(*ast.AssignStmt); ok && len(as.Rhs) == 1 {
+								if sub, ok := ast.Unparen(as.Rhs[0]).(*ast.BinaryExpr); ok && sub.Op == token.SUB {
+									if k, isK := core.ConstVal(info, sub.Y); isK && k == 1 {
+										after = true
+									}
+								}
+							}
+							for _, lp := range core.EnclosingLists(fd.Body, is) {
+								if lp.Index > 0 {
+									if ids, ok := lp.List[lp.Index-1].(*ast.IncDecStmt); ok && ids.Tok == token.DEC {
+										after = true
+									}
+								}
+							}
+							k, _ := core.ConstVal(info, be.Y)
+							deleted := func(before int64) bool {
+								x := before
+								if after {
+									x--
+								}
+								var cond bool
+								switch be.Op {
+								case token.GTR:
+									cond = x > k
+								case token.GEQ:
+									cond = x >= k
+								case token.LSS:
+									cond = x < k
+								case token.LEQ:
+									cond = x <= k
+								case token.EQL:
+									cond = x == k
+								case token.NEQ:
+									cond = x != k
+								}
+								if inside {
+									return cond
+								}
+								return !cond
+							}
+							okT := deleted(1) && !deleted(2) && !deleted(3)
+							c.Check(okT, "R09.8", e.name+" "+fd.Name.Name+": the entry is deleted by exactly the last of its users", is.Pos(),
+								"with 1 user before the release the entry goes, with 2 or 3 it stays (`"+core.ExprStr(is.Cond)+"`)",
+								fmt.Sprintf("`%s` (count %s the release): the entry is deleted with %v/%v/%v for 1/2/3 users before the release instead of yes/no/no – with two holders of the same module ID the code is removed under the remaining one ('source module must be compiled before instantiation'), or never freed",
+									core.ExprStr(is.Cond), map[bool]string{true: "after", false: "before"}[after], deleted(1), deleted(2), deleted(3)))
+						}
 					}
 					return true
 				})
